@@ -238,6 +238,21 @@ func runC10(c *ctx) {
 			kv = buffer.New(bufKV, backKV, maxb)
 		}
 		ops := c10GenOps(c, c.n(30, 60), isBuffer, typ != "memory" && !isBuffer)
+		if h < 2*len(engines) {
+			// every engine, plain and buffered: a batch holding an over-limit key and an over-limit value among ordinary
+			// mutations (they are skipped; the rest of the batch applies), then everything is read back
+			bigK, bigV := strings.Repeat("K", 768), strings.Repeat("v", 63001)
+			pre := []kvOp{
+				{Kind: "set", K: "fixed|a", V: "1"},
+				{Kind: "set", K: "fixed|gone", V: "x"},
+				{Kind: "batch", Muts: [][3]string{{"set", "fixed|b", "2"}, {"set", bigK, "3"}, {"del", "fixed|gone", ""}, {"set", "fixed|c", bigV}, {"set", "fixed|d", "4"}}},
+				{Kind: "get", K: "fixed|b"}, {Kind: "get", K: "fixed|d"}, {Kind: "get", K: "fixed|gone"}, {Kind: "get", K: bigK}, {Kind: "get", K: "fixed|c"},
+				{Kind: "find", K: "", E: ""},
+				{Kind: "batch", Muts: [][3]string{{"set", strings.Repeat("k", 767), strings.Repeat("w", 63000)}, {"set", "fixed|e", "5"}}},
+				{Kind: "get", K: strings.Repeat("k", 767)}, {Kind: "get", K: "fixed|e"},
+			}
+			ops = append(pre, ops...)
+		}
 		ref := refKV{}
 		var outs []string
 		nontrivial := false
